@@ -232,6 +232,7 @@ XSD_CORE = {'boolean': 'xs:boolean', 'integer': 'xs:integer', 'real': 'xs:decima
 class Diagram(object):
     def __init__(self):
         self.conts = {}
+        self.pkgrefs = []       # [(referring package, referred package)...]  (EP_PKGREF, R1402)
         self.types = {}
         self.classes = []
         self.rels = []
@@ -283,9 +284,26 @@ class Diagram(object):
             home = self.conts[home].parent if home in self.conts else None
         return out
 
+    def reach(self, home):
+        '''
+        Containers an element with home container *home* lies in: its package / component, their
+        parents, and for every package on the way the packages that refer to it (R1402) with theirs.
+        '''
+        seen = set()
+        todo = [home]
+        while todo:
+            c = todo.pop()
+            if c is None or c in seen or c not in self.conts:
+                continue
+            seen.add(c)
+            todo.append(self.conts[c].parent)
+            if self.conts[c].kind == 'pkg':
+                todo.extend(r for r, p in self.pkgrefs if p == c)
+        return seen
+
     def contained(self, home, comp):
         '''Is an element whose home container is *home* inside component/package *comp* (None = whole model)?'''
-        return comp is None or comp in self.ancestors(home)
+        return comp is None or comp in self.reach(home)
 
     def is_global(self, home):
         return not any(self.conts[c].kind == 'comp' for c in self.ancestors(home) if c in self.conts)
@@ -294,7 +312,8 @@ class Diagram(object):
     def canon(self):
         def end(e):
             return (e.cls, e.mult, e.cond, e.phrase, e.oir, getattr(e, 'oid', None), tuple(sorted(e.keys)))
-        conts = tuple(sorted((c.id, c.kind, c.name, c.parent) for c in self.conts.values()))
+        conts = tuple(sorted((c.id, c.kind, c.name, c.parent) for c in self.conts.values())) + \
+            tuple(sorted(('ref', r, p) for r, p in self.pkgrefs))
         types = tuple(sorted((t.id, t.name, t.kind, t.core_typ, t.base, tuple(map(tuple, t.enums)), t.home)
                              for t in self.types.values()))
         classes = tuple(sorted((c.id, c.name, c.kl, c.home,
@@ -427,6 +446,8 @@ def extract(T):
         d.conts[r.Package_ID] = Cont(id=r.Package_ID, kind='pkg', name=r.Name, parent=pe.get(r.Package_ID))
     for r in T('C_C'):
         d.conts[r.Id] = Cont(id=r.Id, kind='comp', name=r.Name, parent=pe.get(r.Id))
+    for r in T('EP_PKGREF'):
+        d.pkgrefs.append((r.Referring_Package_ID, r.Referred_Package_ID))
 
     cdt = dict((r.DT_ID, r.Core_Typ) for r in T('S_CDT'))
     edt = set(r.DT_ID for r in T('S_EDT'))
@@ -954,6 +975,10 @@ def rows_container(c, d):
     return out + rows_pe(c.id, c.parent, d, 2)
 
 
+def rows_pkgref(referring, referred):
+    return [mkrow('EP_PKGREF', Referring_Package_ID=referring, Referred_Package_ID=referred)]
+
+
 def rows_enum(t, i):
     e = t.enums[i]
     return [mkrow('S_ENUM', Enum_ID=e[0], Name=e[1], Descrip='', EDT_DT_ID=t.id,
@@ -1076,6 +1101,8 @@ def rows(d):
         out.extend(rows_container(d.conts[cid], d))
     for cid in sorted(d.conts):
         cont(cid)
+    for referring, referred in d.pkgrefs:
+        out.extend(rows_pkgref(referring, referred))
     predefined = set(r.DT_ID for r in global_rows() if r.t == 'S_DT')
     for t in sorted(d.types.values(), key=lambda t: t.id):
         if t.id not in predefined:
@@ -1111,6 +1138,10 @@ class Builder(object):
         c = Cont(id=self.new_id(), kind='comp', name=name, parent=parent)
         self.d.conts[c.id] = c
         return c.id
+
+    def pkgref(self, referring, referred):
+        '''Package *referring* refers to package *referred* (EP_PKGREF).'''
+        self.d.pkgrefs.append((referring, referred))
 
     def dt(self, name):
         return self.d.type_named(name).id
@@ -1405,6 +1436,10 @@ class World(object):
         self.d.types[t.id] = t
         self.insert_after_last('S_ENUM', rows_type(t, self.d))
 
+    def e_add_pkgref(self, referring, referred):
+        self.d.pkgrefs.append((referring, referred))
+        self.insert_after_last('EP_PKGREF', rows_pkgref(referring, referred))
+
     def e_add_container(self, kind, name, parent):
         c = Cont(id=self.new_id('cont', kind, name), kind=kind, name=name, parent=parent)
         self.d.conts[c.id] = c
@@ -1445,6 +1480,7 @@ OWNER = {
     'O_OIDA': 'Obj_ID', 'O_ID': 'Obj_ID', 'O_REF': 'Rel_ID', 'O_RTIDA': 'Rel_ID', 'R_OIR': 'Rel_ID',
     'R_RGO': 'Rel_ID', 'R_RTO': 'Rel_ID', 'R_SUB': 'Rel_ID', 'S_ENUM': 'EDT_DT_ID', 'R_PART': 'Rel_ID',
 }
+WHOLE_EXTRA = ('EP_PKGREF',)
 WHOLE = ('O_OBJ', 'R_REL', 'S_DT', 'EP_PKG', 'C_C', 'S_UDT', 'S_EDT', 'R_SIMP', 'R_ASSOC', 'R_SUBSUP', 'R_FORM',
          'R_AONE', 'R_AOTH', 'R_ASSR', 'R_SUPER')
 
@@ -1463,7 +1499,7 @@ def row_groups(rows_, tables=None, max_rows=6):
             continue
         if r.t in OWNER:
             by.setdefault((r.t, getattr(r, OWNER[r.t])), []).append(i)
-        if r.t in WHOLE or r.t in OWNER:
+        if r.t in WHOLE or r.t in OWNER or r.t in WHOLE_EXTRA:
             by.setdefault((r.t, None), []).append(i)
     for key in sorted(by, key=repr):
         pos = by[key]
@@ -1547,6 +1583,50 @@ def rich_diagram():
     return b.d
 
 
+def packaging_diagram():
+    '''
+    Packaging shapes: component > package > package > nested component > package > class; a package of a
+    sibling component and a global package, each referred to (EP_PKGREF, R1402) by a package inside the
+    component and holding a class (the sibling's package also a data type; data types reach the global
+    referenced package through the move / add edits); a sibling component whose own content must not leak;
+    a global class; relationships inside the nested component, from the component into it, and to the
+    classes of the referenced packages.
+    '''
+    b = Builder()
+    top = b.package('Top')
+    comp = b.component('Comp', top)
+    classes = b.package('Classes', comp)
+    inner = b.package('Inner', classes)
+    nested = b.component('Nested', inner)
+    npkg = b.package('NestedClasses', nested)
+    types = b.package('Types', comp)
+    other = b.component('Other', top)
+    opkg = b.package('OtherClasses', other)
+    shared = b.package('Shared', opkg)
+    gshared = b.package('GlobalShared', top)
+    b.pkgref(inner, shared)
+    b.pkgref(types, gshared)
+    colour = b.enum('Colour', ['Red', 'Green'], types)
+    nkind = b.enum('NKind', ['N1', 'N2'], npkg)
+    skind = b.enum('SharedKind', ['K1', 'K2'], shared)
+    gkind = b.user('GKind', b.dt('integer'), top)
+    hidden = b.enum('Hidden', ['H1'], opkg)
+    A = b.cls('A', classes, [('Id', 'unique_id'), ('Col', colour)])
+    B = b.cls('B', inner, [('Id', 'unique_id')])
+    N = b.cls('N', npkg, [('Id', 'unique_id'), ('Kind', nkind)])
+    N2 = b.cls('N2', npkg, [('Id', 'unique_id')])
+    Sh = b.cls('Sh', shared, [('Id', 'unique_id'), ('Kind', skind)])
+    Gs = b.cls('Gs', gshared, [('Id', 'unique_id'), ('G', gkind)])
+    X = b.cls('X', opkg, [('Id', 'unique_id'), ('H', hidden)])
+    b.cls('F', top, [('Id', 'unique_id'), ('Total', 'real', 'derived')])
+    b.simple(1, npkg, (N2, 1, 1, ''), (N, 0, 0, ''), ['N_Id'])
+    b.simple(2, classes, (N, 1, 1, ''), (B, 0, 1, ''), ['B_Id'])
+    b.simple(3, inner, (Sh, 1, 0, ''), (A, 0, 0, ''), ['A_Id'])
+    b.simple(4, opkg, (X, 1, 1, ''), (Sh, 0, 0, ''), ['Sh_Id'])
+    b.simple(5, classes, (Gs, 0, 1, ''), (A, 0, 1, ''), ['A_Id'])
+    return b.d
+
+
 def family():
     '''
     Small diagrams, one relationship each: simple and linked relationships with all 16
@@ -1609,7 +1689,7 @@ _FAMILY = {}
 def base_world(name):
     '''
     A fresh World for a named base model: 'simple' = tests/resources/Simple_Model.xtuml (all rows, file
-    order), 'rich' = rich_diagram(), 'family:<name>' = one member of family(), 'regen:simple' = the rows
+    order), 'rich' = rich_diagram(), 'pack' = packaging_diagram(), 'family:<name>' = one member of family(), 'regen:simple' = the rows
     regenerated from the abstract diagram of Simple_Model.
     '''
     if name not in _BASES:
@@ -1619,6 +1699,8 @@ def base_world(name):
                 _BASES[name] = world_of_text(f.read())
         elif name == 'rich':
             _BASES[name] = world_of_diagram(rich_diagram())
+        elif name == 'pack':
+            _BASES[name] = world_of_diagram(packaging_diagram())
         elif name == 'regen:simple':
             # the abstraction of the real model, written back as rows by rows(diagram)
             _BASES[name] = world_of_diagram(base_world('simple').d)
@@ -1697,20 +1779,70 @@ def rels_of_class(d, obj):
     return [r for r in d.rels if obj in d.classes_of_rel(r)]
 
 
+_PREFIX = {}
+
+
+def prefix_of(name):
+    '''
+    Edit script that prepares a named start model.  'simple2' = Simple_Model.xtuml plus a sibling component
+    'Other' holding the package 'OtherClasses', a component 'Nested' (with the package 'NestedClasses') nested in
+    the package 'Classes' of 'Comp', and a reference (EP_PKGREF) from 'Classes' to 'OtherClasses'.
+    '''
+    if name != 'simple2':
+        return []
+    if name not in _PREFIX:
+        w = base_world('simple')
+        ops = []
+
+        def do(op):
+            w.apply(op)
+            ops.append(op)
+        top = sorted(c.id for c in w.d.conts.values() if c.kind == 'pkg' and c.parent is None)[0]
+        classes = w.d.cont_named('pkg', 'Classes').id
+        do(['add_container', 'comp', 'Other', top])
+        do(['add_container', 'pkg', 'OtherClasses', w.d.cont_named('comp', 'Other').id])
+        do(['add_container', 'comp', 'Nested', classes])
+        do(['add_container', 'pkg', 'NestedClasses', w.d.cont_named('comp', 'Nested').id])
+        do(['add_pkgref', classes, w.d.cont_named('pkg', 'OtherClasses').id])
+        _PREFIX[name] = ops
+    return [list(op) for op in _PREFIX[name]]
+
+
+def special_homes(d):
+    '''Packages inside a nested component and packages referred to by another package (sorted ids).'''
+    out = set(p for _, p in d.pkgrefs)
+    for c in d.conts.values():
+        if c.kind == 'pkg' and c.parent in d.conts and d.conts[c.parent].kind == 'comp' and \
+           any(d.conts[x].kind == 'comp' for x in d.ancestors(d.conts[c.parent].parent)):
+            out.add(c.id)
+    return sorted(out)
+
+
 class EditModel(object):
-    '''explorer.Model over edit scripts; subclasses give menu(w) and check(ctx, w, hist).'''
+    '''
+    explorer.Model over edit scripts; subclasses give menu(w) and check(ctx, w, hist).
+    *name* is the start model ('simple', 'simple2', 'rich', 'pack', 'family:..', 'regen:simple'); its rows come from
+    base_world(self.base) followed by the edit script self.prefix.
+    '''
     limit_s = 60.0
 
-    def __init__(self, base, tier='quick', seed=0):
-        self.base = base
+    def __init__(self, name, tier='quick', seed=0):
+        self.name = name
+        self.base = 'simple' if name == 'simple2' else name
+        self.prefix = prefix_of(name)
         self.tier = tier
         self.seed = seed
 
     def initial(self):
-        return [[]]
+        return [list(self.prefix)]
+
+    def depth_of(self, hist):
+        '''Number of edits beyond the preparing script.'''
+        n = len(self.prefix)
+        return len(hist) - n if hist[:n] == self.prefix else len(hist)
 
     def case(self, hist, op):
-        return dict(base=self.base, hist=hist, op=op, tier=self.tier, seed=self.seed)
+        return dict(base=self.name, hist=hist, op=op, tier=self.tier, seed=self.seed)
 
     def build(self, hist):
         w = base_world(self.base)
@@ -1858,3 +1990,105 @@ def selftest():
     expect('edited association', [a for a in expected_schema(w.d, comp)['assocs'] if a[0] == 1][0][3], '1C')
     expect('enumerators reordered', [t for t in expected_xsd(w.d, comp)['types'] if t[0] == 'Col'][0][2], ('Green', 'Red'))
     return problems
+
+
+# ---------------------------------------------------------------------------
+# live edits: the same edit applied to a LOADED ooaofooa metamodel through the xtuml API
+# ---------------------------------------------------------------------------
+
+LIVE_KINDS = ('rename_attr', 'retype_attr', 'move_elem', 'enum_add', 'set_end', 'renumber', 'rename_class',
+              'rename_comp', 'set_derived')
+
+
+def live_supported(op):
+    return op[0] in LIVE_KINDS
+
+
+def _pick(mm, kind, **cond):
+    hits = [x for x in mm.select_many(kind) if all(getattr(x, k) == v for k, v in cond.items())]
+    if len(hits) != 1:
+        raise KeyError('%d instances of %s match %r' % (len(hits), kind, cond))
+    return hits[0]
+
+
+def live_apply(mm, before, after, op):
+    '''
+    Apply edit *op* to the loaded metamodel *mm* with setattr / relate / unrelate / new / delete only.
+    *before* / *after*: the diagram before and after the same edit (ids of created things are read from *after*).
+    '''
+    import xtuml
+    name = op[0]
+    if name == 'rename_attr':
+        _pick(mm, 'O_ATTR', Attr_ID=op[2], Obj_ID=op[1]).Name = op[3]
+    elif name == 'retype_attr':
+        a = _pick(mm, 'O_ATTR', Attr_ID=op[2], Obj_ID=op[1])
+        xtuml.unrelate(a, _pick(mm, 'S_DT', DT_ID=before.cls(op[1]).attr(op[2]).dt), 114)
+        xtuml.relate(a, _pick(mm, 'S_DT', DT_ID=op[3]), 114)
+    elif name == 'move_elem':
+        pe = _pick(mm, 'PE_PE', Element_ID=op[2])
+        old = {'class': lambda: before.cls(op[2]).home, 'rel': lambda: before.rel(op[2]).home,
+               'type': lambda: before.types[op[2]].home}.get(op[1], lambda: before.conts[op[2]].parent)()
+        for home, fn in ((old, xtuml.unrelate), (op[3], xtuml.relate)):
+            if home is None:
+                continue
+            if before.conts[home].kind == 'pkg':
+                fn(pe, _pick(mm, 'EP_PKG', Package_ID=home), 8000)
+            else:
+                fn(pe, _pick(mm, 'C_C', Id=home), 8003)
+    elif name == 'enum_add':
+        t = after.types[op[1]]
+        pos = op[2]
+        eid = t.enums[pos][0]
+        prev = _pick(mm, 'S_ENUM', Enum_ID=t.enums[pos - 1][0]) if pos > 0 else None
+        nxt = _pick(mm, 'S_ENUM', Enum_ID=t.enums[pos + 1][0]) if pos + 1 < len(t.enums) else None
+        e = mm.new('S_ENUM', Enum_ID=eid, Name=op[3], Descrip='')
+        xtuml.relate(e, _pick(mm, 'S_EDT', DT_ID=op[1]), 27)
+        if nxt is not None and prev is not None:
+            xtuml.unrelate(nxt, prev, 56, 'succeeds')
+        if prev is not None:
+            xtuml.relate(e, prev, 56, 'succeeds')
+        if nxt is not None:
+            xtuml.relate(nxt, e, 56, 'succeeds')
+    elif name == 'set_end':
+        e = before.rel(op[1]).ends[op[2]]
+        setattr(_pick(mm, END_TABLE[op[2]], Rel_ID=op[1], OIR_ID=e.oir), op[3], op[4])
+    elif name == 'renumber':
+        _pick(mm, 'R_REL', Rel_ID=op[1]).Numb = op[2]
+    elif name == 'rename_class':
+        _pick(mm, 'O_OBJ', Obj_ID=op[1]).Key_Lett = op[2]
+    elif name == 'rename_comp':
+        _pick(mm, 'C_C', Id=op[1]).Name = op[2]
+    elif name == 'set_derived':
+        old, new = ('O_NBATTR', 'O_DBATTR') if op[3] else ('O_DBATTR', 'O_NBATTR')
+        xtuml.delete(_pick(mm, old, Attr_ID=op[2], Obj_ID=op[1]))
+        inst = mm.new(new)
+        xtuml.relate(inst, _pick(mm, 'O_BATTR', Attr_ID=op[2], Obj_ID=op[1]), 107)
+    else:
+        raise Unsupported('no live form of %s' % name)
+
+
+def live_snippet(before, op):
+    '''Python lines (plain xtuml calls on the metamodel `m`) for the commonest live edits; a comment otherwise.'''
+    def sel(kind, **cond):
+        return "m.select_any(%r, lambda s: %s)" % (kind, ' and '.join('s.%s == %r' % kv for kv in sorted(cond.items())))
+    name = op[0]
+    if name == 'rename_attr':
+        return ['%s.Name = %r' % (sel('O_ATTR', Attr_ID=op[2], Obj_ID=op[1]), op[3])]
+    if name in ('move_elem', 'retype_attr'):
+        if name == 'retype_attr':
+            inst = sel('O_ATTR', Attr_ID=op[2], Obj_ID=op[1])
+            pairs = [(before.cls(op[1]).attr(op[2]).dt, 'unrelate', 'S_DT', 'DT_ID', 114), (op[3], 'relate', 'S_DT', 'DT_ID', 114)]
+        else:
+            inst = sel('PE_PE', Element_ID=op[2])
+            old = {'class': lambda: before.cls(op[2]).home, 'rel': lambda: before.rel(op[2]).home,
+                   'type': lambda: before.types[op[2]].home}.get(op[1], lambda: before.conts[op[2]].parent)()
+            pairs = []
+            for home, fn in ((old, 'unrelate'), (op[3], 'relate')):
+                if home is not None:
+                    pk = before.conts[home].kind == 'pkg'
+                    pairs.append((home, fn, 'EP_PKG' if pk else 'C_C', 'Package_ID' if pk else 'Id', 8000 if pk else 8003))
+        lines = ['inst = ' + inst]
+        for ident, fn, kind, col, rel in pairs:
+            lines.append('xtuml.%s(inst, %s, %d)' % (fn, sel(kind, **{col: ident}), rel))
+        return lines
+    return ['# apply through the xtuml API on m: %r' % (op,)]
